@@ -78,6 +78,8 @@ def cases(tier, seed):
         for role in (('wire', 'reg', 'memrd') if tier != 'quick' else (('wire', 'reg', 'memrd')[i % 3],)):
             out.append({'fam': 'FSNAMES', 'name': nm, 'role': role, 'K': 2, 'form': 'pre', 'sim': 'fast'})
             out.append({'fam': 'FSNAMES', 'name': nm, 'role': role, 'K': 2, 'form': 'pre', 'sim': 'compiled', 'init': 'zero'})
+    out.append({'fam': 'FSNAMES', 'name': 'lut', 'role': 'roms', 'K': 2, 'form': 'pre', 'sim': 'fast'})
+    out.append({'fam': 'FSNAMES', 'name': 'lut', 'role': 'roms', 'K': 2, 'form': 'pre', 'sim': 'compiled', 'init': 'zero'})
     # initial-state rules under a non-zero default_value: explicit zeros (reset_value=0, a 0 in register_value_map) must win
     regd = [dict(c, reset=r) for c in designs.op_cases([1, 3, 65], ops='w+', dests=('reg',)) for r in (None, 0, 1)]
     regd += designs.seq_cases(widths=(3,)) + designs.expr_cases(6 if tier == 'quick' else 30, seed + 77, n=5, maxw=5, nreg=2)
@@ -111,6 +113,17 @@ def build_fsnames(d):
     keywords, quotes and backslashes, C identifiers the generated C uses itself)"""
     nm, role = d['name'], d['role']
     a, c = pyrtl.Input(3, 'a'), pyrtl.Input(3, 'b')
+    if role == 'roms':
+        # memory names need not be unique: ROMs of one name and shape with different contents (a lookup helper that names its
+        # ROM, instantiated twice), and one of another shape
+        r1 = pyrtl.RomBlock(3, 2, [1, 2, 3, 4], name=nm, asynchronous=True)
+        r2 = pyrtl.RomBlock(3, 2, [7, 5, 0, 6], name=nm, asynchronous=True)
+        r3 = pyrtl.RomBlock(3, 3, [2, 2, 6, 1, 0, 7, 3, 5], name=nm, asynchronous=True)
+        o = pyrtl.Output(3, 'o')
+        o <<= r1[a[0:2]] ^ r2[a[0:2]] ^ r3[c]
+        o2 = pyrtl.Output(3, 'o2')
+        o2 <<= r2[c[0:2]]
+        return pyrtl.working_block()
     w = pyrtl.WireVector(3, nm if role == 'wire' else 'w')
     w <<= (a + c)[0:3]
     r = pyrtl.Register(3, nm if role == 'reg' else 'r')
